@@ -118,4 +118,32 @@ IndInv ==
 
 IndInit == IndInv /\ MaxViewConstraint
 Target == TypeOK /\ InvTwoBlocksAcceptedAdvanced /\ InvFaultNodesCount
+
+\* BEGIN-SPLIT  The step obligation is discharged per group of actions (in parallel):
+\* IndInit /\ StepX => IndInv' for every group below.  The groups together list every
+\* disjunct of the shipped Next; check_c20.sh compares the action names between
+\* BEGIN-SPLIT and END-SPLIT with the ones in the shipped definition of Next on every
+\* run and falls back to the monolithic obligation (--next=Next) if they differ.
+StepPrepareRequest == \E r \in RM: RMSendPrepareRequest(r)
+StepPrepareResponse == \E r \in RM: RMSendPrepareResponse(r)
+StepCommit == \E r \in RM: RMSendCommit(r)
+StepAcceptBlock == \E r \in RM: RMAcceptBlock(r)
+StepFetchBlock == \E r \in RM: RMFetchBlock(r)
+StepCV1 == \E r \in RM: RMSendChangeView1(r)
+StepCV1Again == \E r \in RM: RMSendChangeView1FromCV1(r)
+StepCV2 == \E r \in RM: RMSendChangeView2(r)
+StepCV2Again == \E r \in RM: RMSendChangeView2FromCV2(r)
+StepDoCV1 == \E r \in RM: RMSendDoCV1ByLeader(r)
+StepDoCV2 == \E r \in RM: RMSendDoCV2ByLeader(r)
+StepReceiveDoCV1 == \E r \in RM: RMReceiveDoCV1FromLeader(r)
+StepReceiveDoCV2 == \E r \in RM: RMReceiveDoCV2FromLeader(r)
+StepFaults == \/ Terminating
+              \/ \E r \in RM: RMBeBad(r) \/ RMDie(r)
+                     \/ RMFaultySendCV1(r) \/ RMFaultySendCV2(r) \/ RMFaultyDoCV(r)
+                     \/ RMFaultySendCommit(r) \/ RMFaultySendPReq(r) \/ RMFaultySendPResp(r)
+\* END-SPLIT
+
+\* Non-vacuity probe, expected to be VIOLATED: Apalache must exhibit a state of IndInit
+\* in which two nodes have accepted a block (so IndInit is not empty / trivial).
+VacuityProbe == Cardinality({r \in RM: rmState[r].type = "blockAccepted"}) < 2
 =============================================================================
